@@ -286,7 +286,7 @@ def run_unit(p, tier, seed):
         r.sample({'xor': 'equal lengths 0..64, 6 DRBG pairs each'})
     elif kind == 'hexdb':
         g = det.rng(seed, 'c17-hexdb')
-        kws = ['China', 'Github', 'Chen', '中文', 'a', 'sp ace', 'été']
+        kws = ['China', 'Github', 'Chen', '中文', 'a', 'sp ace', 'été', 'caf\u00e9', 'cafe\u0301', '\u212b', '\u00c5', '\u1112\u1161\u11ab', '\ud55c']     # composed and decomposed forms are different keywords
         for n in range(1, 21):
             for upper in (False, True):
                 ids = []
